@@ -2,7 +2,6 @@ package memdb
 
 import (
 	"strings"
-	"sync"
 
 	aparser "github.com/arana-db/parser"
 	"github.com/arana-db/parser/ast"
@@ -22,7 +21,6 @@ type piece struct {
 	name       string // savepoint statements
 }
 
-var parserPool = sync.Pool{New: func() interface{} { return aparser.New() }}
 
 // splitSQL splits on ';' outside quotes and comments.
 func splitSQL(sql string) []string {
@@ -328,9 +326,8 @@ func compile(sql string) (pieces []*piece, err error) {
 			pieces = append(pieces, sp)
 			continue
 		}
-		p := parserPool.Get().(*aparser.Parser)
+		p := aparser.New() // not pooled: the AST keeps pointing into the parser's buffers
 		nodes, _, perr := p.Parse(text, "", "")
-		parserPool.Put(p)
 		if perr != nil {
 			return nil, myErr(1064, "You have an error in your SQL syntax; %v", perr)
 		}
